@@ -66,7 +66,13 @@ class Prop:
         rb = " ".join(x[5:] if x.startswith("lost:") else x for x in t)
         if not rb.startswith("ok ") and not (rb == "ok" and not written):
             return "read-back of an intact archive failed: " + rb[:200], "roundtrip:failed-read"
-        got = archgen.parse_items([x for x in rb.split(" ")[1:] if x], selfs=False)
+        if "?missing" in rb:
+            return ("a variable of a loaded ScriptVariableList is not found under its name in the loading dictionary",
+                    "roundtrip:variable-name-lost")
+        try:
+            got = archgen.parse_items([x for x in rb.split(" ")[1:] if x], selfs=False)
+        except (ValueError, IndexError) as e:
+            return "read-back of an intact archive cannot be parsed (%s): %s" % (e, rb[:200]), "roundtrip:unparsable"
         want = archgen.strip_selfs(written)
         if got != want:
             what = first_value_diff(want, got)
